@@ -14,7 +14,7 @@ LEVEL_TEXT = ('seeded exploration of record-length x output-chunk schedules over
               'every branch of the splitting arithmetic; reassembly invariance against an unsplit reference and a record tap')
 LEVEL_NOTE = ('trusted: sim/rp66.py framing+reassembly; the statement\'s "exhaustively for every (capacity, length) pair" is bounded '
               'enumeration (model checking) and is not claimed: evidence lists which (remainder class) branches were reached')
-TIERS = {'quick': {'cases': 4000, 'wall': 40}, 'thorough': {'cases': 400000, 'wall': 780}}
+TIERS = {'quick': {'cases': 3000, 'wall': 40}, 'thorough': {'cases': 400000, 'wall': 780}}
 RULE = ('case = seeded valid specification written at a small record length under a seeded output-chunk schedule and at 16384; '
         'non-trivial = some record split into >= 2 segments while >= 2 flushes happened; distinct = digest of (spec, params)')
 
